@@ -40,7 +40,7 @@ ALLOWED_AXIOMS = {
 TRUSTED_BASE = [
     "Coq 8.16.1 kernel (coqc; vm_compute used, native_compute not used)",
     "tools/translate.py (C tables/constants -> coq/Gen/*.v)",
-    "Coq extraction with ExtrOcamlBasic only (Extract Inductive bool/option/unit/list/prod/sumbool/sumor; no Extract Constant); OCaml 4.13.1",
+    "Coq extraction with ExtrOcamlBasic only (its Extract Inductive bool/option/unit/list/prod/sumbool/sumor and Extract Inlined Constant andb => (&&), orb => (||); no directive of our own); OCaml 4.13.1",
     "correspondence harness: gcc 12 ASan/UBSan build of /repo working tree, harness/c drivers, canonicalisers in checks/*.py",
     "control flow of the C functions is modelled by hand (coq/Model) and tied by the correspondence run, not verified",
 ]
